@@ -88,6 +88,30 @@ def baseline_signatures() -> T.Dict[str, T.Dict[str, T.List[str]]]:
     return _BASELINE_SIGS
 
 
+_BASELINE_CALLERS: T.Optional[T.Dict[str, T.Dict[str, T.List[str]]]] = None
+
+
+def baseline_callers() -> T.Dict[str, T.Dict[str, T.List[str]]]:
+    """Same-module callers (by plain name) of the pinned tree's functions (sa/baseline_callers.json)."""
+    global _BASELINE_CALLERS
+    if _BASELINE_CALLERS is None:
+        with open(os.path.join(os.path.dirname(os.path.abspath(__file__)), "baseline_callers.json")) as fobj:
+            _BASELINE_CALLERS = json.load(fobj)
+    return _BASELINE_CALLERS
+
+
+_BASELINE_CONSTS: T.Optional[T.Dict[str, T.List[str]]] = None
+
+
+def baseline_consts() -> T.Dict[str, T.List[str]]:
+    """Module-level names assigned on the pinned tree (sa/baseline_consts.json)."""
+    global _BASELINE_CONSTS
+    if _BASELINE_CONSTS is None:
+        with open(os.path.join(os.path.dirname(os.path.abspath(__file__)), "baseline_consts.json")) as fobj:
+            _BASELINE_CONSTS = json.load(fobj)
+    return _BASELINE_CONSTS
+
+
 _BASELINE_NAMES: T.Optional[T.Dict[str, T.Dict[str, T.List[str]]]] = None
 
 
@@ -946,7 +970,26 @@ def undo_renames(trees: T.Dict[str, ast.Module]) -> T.List[str]:
                     cands = [q for q, fd in fresh.items() if q.rpartition(".")[0] == old.rpartition(".")[0] and _sig(fd) == sig]
                     same_sig_vanished = [o for o in vanished if tuple(base_sigs.get(o, ())) == sig]
                     if len(sig) < 2 or len(cands) != 1 or same_sig_vanished != [old]:
-                        continue
+                        # ... or the one new top-level function that is called (by plain name) from exactly the functions
+                        # that called the vanished one on the pinned tree
+                        want_callers = set(baseline_callers().get(m, {}).get(old, []))
+                        cands = []
+                        if want_callers and "." not in old:
+                            for q, fd in fresh.items():
+                                if "." in q or len(_sig(fd)) != len(sig):
+                                    continue
+                                got = set()
+                                for cq, cfd in defs.items():
+                                    if cq != q and any(isinstance(c, ast.Call) and isinstance(c.func, ast.Name) and c.func.id == q for c in ast.walk(cfd)):
+                                        got.add(cq)
+                                if any(isinstance(c, ast.Call) and isinstance(c.func, ast.Name) and c.func.id == q for st_ in tree.body
+                                       if not isinstance(st_, (ast.FunctionDef, ast.AsyncFunctionDef, ast.ClassDef)) for c in ast.walk(st_)):
+                                    got.add("<module>")
+                                if got == want_callers:
+                                    cands.append(q)
+                        others = [o for o in vanished if o != old and set(baseline_callers().get(m, {}).get(o, [])) == want_callers]
+                        if len(cands) != 1 or others:
+                            continue
                 new = cands[0]
                 new_name, old_name = new.rpartition(".")[2], old.rpartition(".")[2]
                 is_method = "." in new
@@ -1019,6 +1062,102 @@ def undo_local_renames(trees: T.Dict[str, ast.Module]) -> T.List[str]:
                                     kw.arg = pren[kw.arg]
             done.append(f"{m}.{q}: {', '.join(f'{c}->{o}' for c, o in sorted(ren.items()))}")
     return done
+
+
+def _literal_value(e: ast.AST, known: T.Dict[str, T.Any]) -> T.Any:
+    """Value of a literal expression: constants, + of strings, containers of literals, sep.join([...]), frozenset/tuple/set/list
+    of a literal container, f-strings of literals, names of other new constants.  Raises ValueError otherwise."""
+    if isinstance(e, ast.Constant) and isinstance(e.value, (str, int, bool, type(None), bytes)):
+        return e.value
+    if isinstance(e, ast.Name) and e.id in known:
+        return known[e.id]
+    if isinstance(e, ast.BinOp) and isinstance(e.op, ast.Add):
+        l, r = _literal_value(e.left, known), _literal_value(e.right, known)
+        if type(l) is type(r) and isinstance(l, (str, tuple, list)):
+            return l + r
+        raise ValueError
+    if isinstance(e, ast.Tuple):
+        return tuple(_literal_value(x, known) for x in e.elts)
+    if isinstance(e, ast.List):
+        return [_literal_value(x, known) for x in e.elts]
+    if isinstance(e, ast.Set):
+        return set(_literal_value(x, known) for x in e.elts)
+    if isinstance(e, ast.JoinedStr):
+        out = ""
+        for v in e.values:
+            if isinstance(v, ast.Constant):
+                out += str(v.value)
+            elif isinstance(v, ast.FormattedValue) and v.format_spec is None and v.conversion == -1:
+                x = _literal_value(v.value, known)
+                if not isinstance(x, str):
+                    raise ValueError
+                out += x
+            else:
+                raise ValueError
+        return out
+    if isinstance(e, ast.Call) and not e.keywords and len(e.args) == 1:
+        if isinstance(e.func, ast.Attribute) and e.func.attr == "join":
+            sep, items = _literal_value(e.func.value, known), _literal_value(e.args[0], known)
+            if isinstance(sep, str) and isinstance(items, (list, tuple)) and all(isinstance(i, str) for i in items):
+                return sep.join(items)
+        if isinstance(e.func, ast.Name) and e.func.id in ("frozenset", "tuple", "set", "list"):
+            v = _literal_value(e.args[0], known)
+            if isinstance(v, (list, tuple, set)):
+                return {"frozenset": frozenset, "tuple": tuple, "set": set, "list": list}[e.func.id](v)
+    raise ValueError
+
+
+def _literal_node(v: T.Any) -> ast.AST:
+    if isinstance(v, (frozenset, set)):
+        elts = sorted(v, key=repr)
+        inner = ast.Set(elts=[_literal_node(x) for x in elts]) if elts else ast.Call(func=ast.Name(id="set", ctx=ast.Load()), args=[], keywords=[])
+        return ast.Call(func=ast.Name(id="frozenset", ctx=ast.Load()), args=[inner], keywords=[]) if isinstance(v, frozenset) else inner
+    if isinstance(v, tuple):
+        return ast.Tuple(elts=[_literal_node(x) for x in v], ctx=ast.Load())
+    if isinstance(v, list):
+        return ast.List(elts=[_literal_node(x) for x in v], ctx=ast.Load())
+    return ast.Constant(value=v)
+
+
+def inline_new_constants(tree: ast.Module, m: str) -> T.List[str]:
+    """A module-level name that the pinned tree does not have and that is bound once, to a literal, is a named constant
+    introduced by a clean-up: its uses inside the module's functions are replaced by the literal."""
+    import copy
+    old = set(baseline_consts().get(m, []))
+    bound: T.Dict[str, int] = {}
+    for n in ast.walk(tree):
+        if isinstance(n, ast.Name) and isinstance(n.ctx, (ast.Store, ast.Del)):
+            bound[n.id] = bound.get(n.id, 0) + 1
+        elif isinstance(n, ast.arg):
+            bound[n.arg] = bound.get(n.arg, 0) + 1
+        elif isinstance(n, (ast.Global, ast.Nonlocal)):
+            for x in n.names:
+                bound[x] = bound.get(x, 0) + 2
+    known: T.Dict[str, T.Any] = {}
+    for st in tree.body:
+        tg = val = None
+        if isinstance(st, ast.Assign) and len(st.targets) == 1:
+            tg, val = st.targets[0], st.value
+        elif isinstance(st, ast.AnnAssign) and st.value is not None:
+            tg, val = st.target, st.value
+        if isinstance(tg, ast.Name) and tg.id not in old and bound.get(tg.id) == 1:
+            try:
+                known[tg.id] = _literal_value(val, known)
+            except ValueError:
+                continue
+    if not known:
+        return []
+
+    class Sub(ast.NodeTransformer):
+        def visit_Name(self, node: ast.Name) -> ast.AST:
+            if node.id in known and isinstance(node.ctx, ast.Load):
+                return ast.copy_location(_literal_node(copy.deepcopy(known[node.id])), node)
+            return node
+    for i, st in enumerate(tree.body):
+        if isinstance(st, (ast.FunctionDef, ast.AsyncFunctionDef, ast.ClassDef)):
+            tree.body[i] = Sub().visit(st)
+    ast.fix_missing_locations(tree)
+    return sorted(known)
 
 
 def _is_ref(e: ast.AST) -> bool:
@@ -1192,9 +1331,10 @@ def normalise_program(trees: T.Dict[str, ast.Module]) -> T.Dict[str, int]:
     out = {m: 0 for m in trees}
     if os.environ.get("VERIF_NO_NORMALISE"):
         return out
+    LAST_RUN["constants_inlined"] = [f"{m}.{c}" for m, t in trees.items() if baseline().get(m) for c in inline_new_constants(t, m)]
+    LAST_RUN["dict_calls"] = sum(canonical_dict_calls(t) for m, t in trees.items() if baseline().get(m))
     LAST_RUN["renames_undone"] = undo_renames(trees)
     LAST_RUN["local_renames_undone"] = undo_local_renames(trees)
-    LAST_RUN["dict_calls"] = sum(canonical_dict_calls(t) for m, t in trees.items() if baseline().get(m))
     n_disp = 0
     for m, t in trees.items():
         known = baseline().get(m)
